@@ -35,7 +35,7 @@ CHECKS = [
   "Bloom/Range/Combined filters: generated configs (odd bit counts, 0-5 hashers, zero sizes) and key sets; no added key is ever denied in memory, after serialization, probed from file bytes (answers must equal in-memory answers for all probes), off-loaded, merged. HierarchicalFilters under push/pop/remove/offload/reload scripts with group sizes 2-9: every key of every present child stays reachable. Storage level: check_filters/check_filter never deny a stored key across offload/restore/delete-in-closed/restart histories.",
   "False positives are never flagged. The file-probe test uses a BloomDataProvider over serialized bytes at a generated offset (the same interface the index implements)."),
  ("C11", "fault_enumeration", "model-based property testing with injected I/O failpoints (n-th create/open/write/short write/sync on blob or index files) + enumerated n-sweep",
-  "Generated histories with one-shot failpoints armed at generated steps; an error without a fired failpoint is a violation, a write that reported Err is rolled back in the model and must never be served, every record acknowledged earlier must keep answering exactly after every step, service must resume after the fault clears (writes, delete, worker alive, idle reached), and after restart every blob is served or preserved byte-identical in the corrupted dir. Enumerated phase: one fixed history with the n-th operation of each kind failing for every n, on fresh and reopened active blobs.",
+  "Generated histories with one-shot failpoints armed at generated steps; an error without a fired failpoint is a violation, a write that reported Err is rolled back in the model and must never be served, every record acknowledged earlier must keep answering exactly after every step, service must resume after the fault clears (writes, delete, worker alive, idle reached), and after restart every blob is served or preserved byte-identical in the corrupted dir. Enumerated phase: one fixed history with the n-th operation of each kind failing for every n, on fresh and reopened active blobs. Rotation phase: the fault hits the background rotation of a full, aged blob; afterwards rotation must resume and continue.",
   "Faults are injected at pearl's own call sites (hook H2), not in the kernel. A key hit by a faulted delete is excluded from comparison (a delete may legitimately be applied to some blobs only). Open known finding: a failed write whose bytes reached the file can be resurrected by a later index regeneration."),
  ("C12", "exploration", "trace property: four ordering rules evaluated on the generated write/sync event trace (I/O tap)",
   "Generated histories with dirty-byte limits {0,1,100,4096,1MiB,default}, value sizes around the write-path thresholds and concurrent write bursts run under the I/O tap with payload capture; the ordered trace must satisfy: blob header synced before the first record, index marked complete only after the blob bytes it describes were synced, explicit fsyncdata / close of the active blob / close leave no un-synced byte of that blob, and at every idle point the active blob's un-synced bytes are within the limit. A second generated phase injects one failing sync of a blob file (failpoint, EIO/ENOSPC) into write/burst/fsyncdata histories and judges the idle rule at every idle point that follows an acknowledged write made after the failure.",
